@@ -169,6 +169,13 @@ func CheckAuthzAndAllowanceForGranter(
 		return nil, nil, fmt.Errorf(ErrAuthzDoesNotExistOrExpired, msgURL, grantee)
 	}
 
+	// A grant in its last instant (expiration == block time) is still returned by GetAuthorization, but the authz
+	// keeper refuses to store it again, so a spend from it could not be recorded: the message would run and the
+	// update of the grant would fail afterwards. Treat it as expired before anything is executed.
+	if expiration != nil && !expiration.After(ctx.BlockTime()) {
+		return nil, nil, fmt.Errorf(ErrAuthzDoesNotExistOrExpired, msgURL, grantee)
+	}
+
 	stakeAuthz, ok := msgAuthz.(*stakingtypes.StakeAuthorization)
 	if !ok {
 		return nil, nil, authz.ErrUnknownAuthorizationType
